@@ -212,6 +212,11 @@ type agg struct {
 	known     []fw.Finding
 }
 
+func (a *agg) fatalf(format string, args ...any) {
+	os.RemoveAll(a.dir)
+	fw.Fatalf(format, args...)
+}
+
 // tooMany stops the exploration early once plenty of unknown violations are on record (the run fails anyway).
 func (a *agg) tooMany() bool {
 	if os.Getenv("C02_NO_EARLY_STOP") != "" {
@@ -267,7 +272,7 @@ func (a *agg) runSingle(c caseDesc, tag string) (failed bool, what string) {
 	b := batch{Engine: c.Engine, Kind: memKindByName(c.Mem), Pages: c.Pages, Op: c.Op, Offs: []uint64{c.Off}, Level: 0, Only: &c, Move: c.Move}
 	path := filepath.Join(a.dir, "items-"+tag+".json")
 	if err := os.WriteFile(path, []byte(mustJSON([]item{{Batch: b}})), 0o600); err != nil {
-		fw.Fatalf("items file: %v", err)
+		a.fatalf("items file: %v", err)
 	}
 	fw.Supervise(fw.SupOpts{N: 1, Workers: 1, CaseTimeout: 15 * time.Minute, Mode: tag,
 		Env: []string{"C02_ITEMS=" + path, "C02_DIR=" + a.dir, "C02_TOUCH_EVERY=1"}},
@@ -309,8 +314,7 @@ func (a *agg) confirm() {
 	for k, s := range sigs {
 		failed, what := a.runSingle(a.first[s], fmt.Sprintf("confirm%d", k))
 		if !failed {
-			os.RemoveAll(a.dir)
-			fw.Fatalf("violation %s (%s) did not reproduce in a fresh process: %s", s, a.first[s], what)
+			a.fatalf("violation %s (%s) did not reproduce in a fresh process: %s", s, a.first[s], what)
 		}
 		fmt.Printf("CONFIRMED in a fresh process: %s\n", s)
 	}
@@ -329,10 +333,10 @@ func (a *agg) handle(pool string, items []item, workers int, i int, res string, 
 		prog := openProgress(filepath.Join(a.dir, fmt.Sprintf("w-%s-%d", pool, i%workers)), false)
 		pi, seq := prog.get()
 		if strings.Contains(crash.Stderr, "HARNESS-ERROR") {
-			fw.Fatalf("child failed on item %d (%s): %s", i, mustJSON(b), crash.Stderr)
+			a.fatalf("child failed on item %d (%s): %s", i, mustJSON(b), crash.Stderr)
 		}
 		if pi != i {
-			fw.Fatalf("child crashed on item %d but the progress page names item %d: %s", i, pi, crash.Stderr)
+			a.fatalf("child crashed on item %d but the progress page names item %d: %s", i, pi, crash.Stderr)
 		}
 		cases := b.cases(b.specs())
 		inCall := seq >= 0
@@ -340,7 +344,7 @@ func (a *agg) handle(pool string, items []item, workers int, i int, res string, 
 			seq = -1 - seq
 		}
 		if seq < 0 || seq >= len(cases) {
-			fw.Fatalf("child crashed on item %d outside any case (%s): %s", i, mustJSON(b), crash.Stderr)
+			a.fatalf("child crashed on item %d outside any case (%s): %s", i, mustJSON(b), crash.Stderr)
 		}
 		d := b.desc(cases[seq])
 		// a fault in generated code surfaces in several shapes (SIGSEGV report, "unexpected fault address", a
@@ -366,7 +370,7 @@ func (a *agg) handle(pool string, items []item, workers int, i int, res string, 
 	}
 	var r itemResult
 	if err := json.Unmarshal([]byte(res), &r); err != nil {
-		fw.Fatalf("bad child result for item %d: %v: %.200s", i, err, res)
+		a.fatalf("bad child result for item %d: %v: %.200s", i, err, res)
 	}
 	a.items++
 	a.genMs += r.GenMs
@@ -409,7 +413,7 @@ func supervisePool(a *agg, pool string, items []item, workers int, touchEvery in
 		}
 		path := filepath.Join(a.dir, fmt.Sprintf("items-%s-%d.json", pool, pass))
 		if err := os.WriteFile(path, []byte(mustJSON(items)), 0o600); err != nil {
-			fw.Fatalf("items file: %v", err)
+			a.fatalf("items file: %v", err)
 		}
 		w := workers
 		if w > len(items) {
@@ -518,7 +522,7 @@ func main() {
 func replay(a *agg, file string) {
 	raw, err := os.ReadFile(file)
 	if err != nil {
-		fw.Fatalf("replay: %v", err)
+		a.fatalf("replay: %v", err)
 	}
 	var doc struct {
 		Signature string    `json:"signature"`
@@ -526,11 +530,11 @@ func replay(a *agg, file string) {
 		Replay    *caseDesc `json:"replay"`
 	}
 	if err := json.Unmarshal(raw, &doc); err != nil || doc.Replay == nil {
-		fw.Fatalf("replay: %s has no replayable case (%v)", file, err)
+		a.fatalf("replay: %s has no replayable case (%v)", file, err)
 	}
 	c := doc.Replay
 	if opByName(c.Op) == nil || memKindByName(c.Mem) < 0 || placementByName(c.Placement) == nil || formByName(c.Form) < 0 {
-		fw.Fatalf("replay: unknown op, memory kind, placement or form in %s", file)
+		a.fatalf("replay: unknown op, memory kind, placement or form in %s", file)
 	}
 	fmt.Printf("replaying %s\n  recorded: %s: %s\n", *c, doc.Signature, doc.What)
 	failed, what := a.runSingle(*c, "replay")
